@@ -699,7 +699,7 @@ def run(rep, tier, seed):
     res = f_op_mc.result()
     rep.add_tlc("operator-exhaustive", res, {"cfg": "Operator_mc" + sfx})
     _tlc_verdict(rep, res, "Operator")
-    _nonvacuous(res, ("DoBOL", "Call", "EndBOL", "EndBOC", "EndEN", "EndCPL", "DbWrite", "EndEOC", "EndEOL"))
+    _nonvacuous(res, ("DoBOL", "Call", "SampleStart", "EndBOC", "EndEN", "EndCPL", "DbWrite", "EndEOC", "EndEOL"))
     run_replay(rep, thorough, seed, rig, f_op_emit, None if thorough else 4000)
     pool.shutdown()
     rep.exhaustive = True
